@@ -1,5 +1,5 @@
 #!/venv/bin/python
-"""Regression over all kept seeded changes: apply each patch to a scratch worktree of /repo HEAD and run the
+"""Regression over all kept seeded changes: apply each patch to a scratch clone of /repo HEAD and run the
 property's quick check against it; every one must be reported (exit 1).  usage: seed_regress.py [name-filter] [--nproc N]"""
 import glob, json, os, subprocess, sys, re
 flt = sys.argv[1] if len(sys.argv) > 1 and not sys.argv[1].startswith("--") else ""
@@ -9,7 +9,8 @@ if "--nproc" in sys.argv:
 wt = "/dev/shm/wt-regress-%d" % os.getpid()
 def sh(c):
     return subprocess.run(c, shell=True, stdout=subprocess.PIPE, stderr=subprocess.STDOUT, text=True)
-sh("git -C /repo worktree add --detach %s HEAD" % wt)
+# an independent clone, not a worktree: worktrees share stash/prune state with every other worktree of /repo
+sh("git clone -q --no-hardlinks /repo %s" % wt)
 bad = []
 try:
     for p in sorted(glob.glob("/verif/seeded/*/meta.json")):
@@ -29,6 +30,6 @@ try:
         if r.returncode != 1:
             bad.append(name)
 finally:
-    sh("git -C /repo worktree remove --force %s" % wt)
+    sh("rm -rf %s" % wt)
 print("NOT CAUGHT: %s" % bad if bad else "all seeded changes are reported")
 sys.exit(1 if bad else 0)
